@@ -63,7 +63,7 @@ int main(void) {
   if (!p_in_region || !p_usable || !p_heap_default || !p_visit) { printf("SKIP mimalloc is not loaded into this process\n"); return 0; }
   p_cfree = (void (*)(void*))dlsym(RTLD_DEFAULT, "cfree"); p_libc_malloc = (void* (*)(size_t))dlsym(RTLD_DEFAULT, "__libc_malloc"); p_libc_free = (void (*)(void*))dlsym(RTLD_DEFAULT, "__libc_free");
   p_libc_memalign = (void* (*)(size_t, size_t))dlsym(RTLD_DEFAULT, "__libc_memalign"); p_reallocarray = (void* (*)(void*, size_t, size_t))dlsym(RTLD_DEFAULT, "reallocarray");
-  static const size_t SZ[] = { 1, 24, 200, 1000, 9000, 70000, 300000, 5000000, 40000000 };
+  static const size_t SZ[] = { 1, 24, 32, 200, 1000, 1024, 9000, 65536, 70000, 300000, 5000000, 40000000 };   // 32, 1024, 65536: exact size classes (a copy that forgets its terminator does not fit)
   for (size_t si = 0; si < sizeof(SZ) / sizeof(SZ[0]); si++) for (size_t ai = 0; ai < sizeof(A) / sizeof(A[0]); ai++) for (size_t ri = 0; ri < sizeof(R) / sizeof(R[0]); ri++) {
     size_t n = SZ[si]; cur_n = n; npairs++;
     long before = live();
@@ -71,9 +71,13 @@ int main(void) {
     if (!p) { FAIL("alloc_failed", "%s(%zu)", A[ai].name, n); continue; }
     if (!p_in_region(p)) { FAIL("not_served_by_mimalloc", "%s(%zu) returned %p which is not in the mimalloc heap (so %s would be handed foreign memory)", A[ai].name, n, (void*)p, R[ri].name); continue; }
     size_t want = A[ai].exact ? n : strlen((char*)p) + 1; cur_n = want;
+    if (A[ai].fn == a_strdup || A[ai].fn == a_strndup) {   // the copy has n characters and its terminator: n + 1 bytes inside the block
+      if (strlen((char*)p) != n || p[n] != 0) FAIL("strdup_result", "%s of a string of %zu characters: strlen %zu", A[ai].name, n, strlen((char*)p));
+      want = n + 1; cur_n = want;
+    }
     size_t u1 = malloc_usable_size(p), u2 = p_usable(p);
     if (u1 != u2 || u1 < want) FAIL("usable_size_disagrees", "%s(%zu): malloc_usable_size %zu, mi_usable_size %zu", A[ai].name, n, u1, u2);
-    if (A[ai].exact) memset(p, 0x5a, n);
+    if (A[ai].exact) memset(p, 0x5a, want);
     long mid = live();
     if (mid != before + 1) FAIL("live_count_after_alloc", "%s(%zu): live blocks %ld -> %ld", A[ai].name, n, before, mid);
     R[ri].fn(p);
